@@ -36,7 +36,8 @@ CHECKS = {
  "C05": ("reference-model monitor: exact containment oracle at the `in` boundary",
          "The 18 supported (candidate, container) kind pairs with candidates on every boundary feature class, displaced across "
          "each feature, on the carrier outside the extent, sub-objects and parallel-displaced copies; bool(x in S) compared with "
-         "exact containment of every point of x.", "3 C05"),
+         "exact containment of every point of x; a tenth of the Point questions are two lattice points CPython hashes alike (a "
+         "coordinate -1 against -2) asked one after the other of ONE container object that separates them.", "3 C05"),
  "C06": ("reference-model monitor: exact rational cross-product / determinant measures; enumerated vertex permutations and face-orientation patterns",
          "length/area/volume/height and volume() on lattice segments, polygons (3-8 vertices, all permutations for <=5), polyhedra "
          "(all 2^F orientation patterns for F<=6) and pyramids over int/float/Fraction coordinates, relative tolerance 1e-9.", "3 C06"),
@@ -75,7 +76,8 @@ CHECKS = {
  "C08": ("representation-family monitor on ==, !=, hash and set deduplication; near-miss families; foreign-type comparison",
          "For each base object an alternative exact representation of the same set (other defining points, scaled / negated "
          "directions and normals, two-/three-point and two-vector forms, swapped endpoints, vertex rotations / reflections / "
-         "duplicates, face order and orientation, int/float/Fraction, move-and-back) must be ==, hash-equal and deduplicate in a "
+         "duplicates, face order and orientation, int/float/Fraction, move-and-back, float-noise copies a few ulps off with every "
+         "copy of a shared vertex drawn afresh - what computed results carry) must be ==, hash-equal and deduplicate in a "
          "set; a robustly different near-miss must compare unequal both ways; == against foreign types must be False.", "4 C08"),
  "C09": ("invariant hooks on constructed objects + set comparison with the exact hull; enumerated permutations / orientation patterns; library outputs fed back",
          "ConvexPolygon from every permutation (<=5 vertices) / sampled permutations with duplicates: exact vertex set, cycle "
